@@ -859,7 +859,8 @@ func canonJSON(v hs.Value, inAny bool) hs.Value {
 	switch x := v.(type) {
 	case hs.FloatV:
 		f := float64(x)
-		if inAny && f == math.Trunc(f) && math.Abs(f) < 9.2e18 {
+		// (the int64 range: untyped JSON numbers without a fraction in that range are ints; 2^63 itself is not)
+		if inAny && f == math.Trunc(f) && f >= -9223372036854775808 && f < 9223372036854775808 {
 			return hs.IntV(int64(f))
 		}
 	case hs.NullV:
